@@ -47,6 +47,7 @@ class WebSession(object):
         self._cookie_jar = cookie_jar
 
         self._loop_type = LoopType.normal
+        self._authentication_retried = False
         self._hostnames_with_auth = set()
         self._current_session = None
 
@@ -231,7 +232,12 @@ class WebSession(object):
         )
 
     def _process_authentication(self, response: Response):
-        if self._loop_type == LoopType.authentication:
+        # One retry with the credentials in the whole session: a redirect
+        # in between does not earn another one, and credentials that were
+        # just refused are not sent again.
+        if self._loop_type == LoopType.authentication or \
+                self._authentication_retried or \
+                'Authorization' in response.request.fields:
             _logger.warning(_('Unable to authenticate.'))
             self._next_request = None
             self._loop_type = LoopType.normal
@@ -239,6 +245,7 @@ class WebSession(object):
 
         self._add_basic_auth_header(self._next_request)
         self._loop_type = LoopType.authentication
+        self._authentication_retried = True
         self._hostnames_with_auth.add(self._next_request.url_info.hostname_with_port)
 
     def _add_basic_auth_header(self, request: Request):
